@@ -38,7 +38,7 @@ ASSUMPTIONS = [
 
 MIN_OBLIGATIONS = 20
 MIN_PER_RULE = {'C01.1': 2, 'C01.2': 3, 'C01.3': 1, 'C01.4': 3, 'C01.5': 4,
-                'C01.6': 2, 'C01.7': 4}
+                'C01.6': 2, 'C01.7': 4, 'C01.8': 2}
 
 UTILS = 'treadmill.utils'
 
@@ -663,7 +663,39 @@ def _units(ctx):
            construct='cpu_units')
 
 
+def _model_exit(ctx):
+    """C01.8: a server object leaves the model only after its placements
+    were released (otherwise instances keep naming a server that does not
+    list them)."""
+    loader = ctx.index.get_class(K.LOADER, 'Loader')
+    count = 0
+    for func in loader.methods.values():
+        graph = None
+        for sub in K.walk_no_nested(func.node):
+            if isinstance(sub, ast.Delete) and any(
+                    isinstance(t, ast.Subscript) and
+                    N.txt(t.value) == 'self.servers' for t in sub.targets):
+                graph = graph or ctx.cfg(func)
+                site = [n for n in graph.nodes if n.ast is sub][0]
+                count += 1
+                ok = K.guarded_by(graph, site, lambda e: any(
+                    K.is_meth(c, 'remove_all')
+                    for c in C.node_calls(e.src)))
+                ctx.ob('C01.8', func, site, ok,
+                       'a server is dropped from the model only after '
+                       'remove_all() released its placements')
+                det = K.guarded_by(graph, site, lambda e: any(
+                    K.is_meth(c, 'remove_node', 'remove_node_by_name')
+                    for c in C.node_calls(e.src)))
+                ctx.ob('C01.8', func, site, det,
+                       'and after it was detached from its bucket '
+                       '(remove_node)',
+                       construct=site.text() + ' <= remove_node')
+    ctx.require(count >= 1, 'del self.servers[...] in Loader')
+
+
 def check(ctx):
+    _model_exit(ctx)
     nz, server, _node_cls, put, remove, pred = _roles(ctx)
     _admission(ctx, nz, put, pred)
     _pair(ctx, put, remove)
@@ -796,6 +828,19 @@ MUTANTS = [
 """, """    if norm.endswith('%'):
         return int(norm[:-1]) // 100
 """)], 'C01.7'),
+]
+
+MUTANTS += [
+    ('remove-server-keeps-placements', [(_L, """        server = self.servers[servername]
+        server.remove_all()
+        server.parent.remove_node(server)
+""", """        server = self.servers[servername]
+        server.parent.remove_node(server)
+""")], 'C01.8'),
+    ('remove-server-stays-in-bucket', [(_L, """        server.remove_all()
+        server.parent.remove_node(server)
+""", """        server.remove_all()
+""")], 'C01.8'),
 ]
 
 REFACTORS = [
